@@ -154,6 +154,8 @@ def tr_get_symbols(src):
 CALL_W_EXPECT_HEAD = "symbol = %s; if ((symbol.get_type().is_function() || symbol.get_type().is_function_external()) && symbol.get_data()) { fun = (function_t*)symbol.get_data();"
 CALLEE_PLAIN = "get(0).get_symbol()"
 CALLEE_RESOLVED = "called_function_symbol(get(0))"
+# a callee that is not a name (`(-f)()`) has the null symbol: the case does nothing for it -- the model has no such calls
+NULL_CALLEE_GUARD = "if (symbol == symbol_t()) break; "
 CALLEE_HELPER = ("if (callee.get_kind() == DOT && callee.get(0).get_type().is_process()) { const auto* process = "
                  "static_cast<const instance_t*>(callee.get(0).get_symbol().get_data()); if (process != nullptr && process->templ != nullptr && "
                  "static_cast<uint32_t>(callee.get_index()) < process->templ->frame.get_size()) return process->templ->frame[callee.get_index()]; } "
@@ -186,6 +188,7 @@ def tr_writes(src):
     lhs_kinds, call_kinds = [], []
     flags = {"callAddsChanges": False, "callAddsRefArgs": False, "resolvesDot": False}
     for labels, b in split_cases(sw, "collect_possible_writes"):
+        b = b.replace(NULL_CALLEE_GUARD, "")
         if labels == ["default"]:
             if b != "break;":
                 raise TranslateError("collect_possible_writes: default does %r" % b)
@@ -229,6 +232,7 @@ def tr_reads(src):
         raise TranslateError("collect_possible_reads: code after the switch")
     ident, call_kinds, rnd, adds_dep, resolves_dot = False, [], [], False, False
     for labels, b in split_cases(sw, "collect_possible_reads"):
+        b = b.replace(NULL_CALLEE_GUARD, "")
         if labels == ["default"]:
             if b != "break;":
                 raise TranslateError("collect_possible_reads: default does %r" % b)
